@@ -1055,7 +1055,7 @@ def run(run: Run) -> None:
     from mc.runner import h64
     never = [s for s in names + ["t3trace:emit_trace"] if h64(s.split("@")[0]) not in fired]
     run.notes["sites_never_reached"] = never
-    if never:
+    if never and not run.viol:  # with violations present an early abort may legitimately hide later sites
         raise HarnessError("fault never reached at declared site(s) %s - seam rotted or gate not open" % never)
     run.assume("declared fail-soft sites = the try/except-guarded or 'never raises'-documented calls listed in coverage.sites; "
                "gel_observe/gel_tick, the main snapshot write, stage functions and log writers are not declared optional and are not injected")
